@@ -40,17 +40,17 @@ ORDER_PRESERVING = ("sorted", "list", "tuple")
 
 
 def run(ctx: Ctx, rep: Report) -> None:
-    rep.rule("C01-R1", "values are yielded only under any(v.oid in root for root in <the walk's root list>)", floor=3)
-    rep.rule("C01-R2", "values are yielded only once: guarded by a seen-set shared by all rounds and updated for every yielded value", floor=3)
-    rep.rule("C01-R3", "every fetched batch is regrouped, filtered and yielded; the loop continues while a root is unfinished", floor=6)
+    rep.rule("C01-R1", "values are yielded only under any(v.oid in root for root in <the walk's root list>)", floor=2)
+    rep.rule("C01-R2", "values are yielded only once: guarded by a seen-set shared by all rounds and updated for every yielded value", floor=2)
+    rep.rule("C01-R3", "every fetched batch is regrouped, filtered and yielded; the loop continues while a root is unfinished", floor=5)
     rep.rule("C01-R4", "positional regrouping: stride, offsets and keys agree; remap to user roots by containment", floor=4)
-    rep.rule("C01-R5", "OID lists given to a truncating fetcher are ascending", floor=2)
-    rep.rule("C01-R6", "a root continues from its last received OID and only while that OID is inside the root", floor=4)
+    rep.rule("C01-R5", "OID lists given to a truncating fetcher are ascending", floor=1)
+    rep.rule("C01-R6", "a root continues from its last received OID and only while that OID is inside the root", floor=3)
     rep.rule("C01-R7", "endOfMibView markers are never delivered as instances", floor=2)
-    rep.rule("C01-R8", "order within a root is preserved between fetch and yield", floor=2)
-    rep.rule("C01-R9", "an exception a fetcher raises itself ends the walk the same way at every fetch site (first request and continuation requests)", floor=3)
-    rep.rule("C01-R11", "the fetchers' progress guard refuses only non-advancing OIDs: it pairs requested[i] with retrieved[i] and passes requested < retrieved (a conformant agent is never refused; shared with C03-R2/R3)", floor=8)
-    rep.rule("C01-R10", "the GETBULK-based walk is the same loop: delegation, faithful fetcher results, suffix cut at the marker (shared with C02-R0/R1/R4)", floor=5)
+    rep.rule("C01-R8", "order within a root is preserved between fetch and yield", floor=1)
+    rep.rule("C01-R9", "an exception a fetcher raises itself ends the walk the same way at every fetch site (first request and continuation requests)", floor=2)
+    rep.rule("C01-R11", "the fetchers' progress guard refuses only non-advancing OIDs: it pairs requested[i] with retrieved[i] and passes requested < retrieved (a conformant agent is never refused; shared with C03-R2/R3)", floor=4)
+    rep.rule("C01-R10", "the GETBULK-based walk is the same loop: delegation, faithful fetcher results, suffix cut at the marker (shared with C02-R0/R1/R4)", floor=3)
     rep.assumptions += [
         "the agent is standards conformant (GETNEXT/GETBULK return lexicographic successors; endOfMibView at the end of the view)",
         "requested roots are pairwise disjoint (the property's quantifier)",
